@@ -41,8 +41,16 @@ func raceLogSize() int64 {
 	return n
 }
 
+var concSeq int64
+var concAuditFile string // one audit log per conc/tfid invocation, removed when it ends
+
 func buildConcWAF(c *eCase) (coraza.WAF, string) {
-	waf, err := coraza.NewWAF(coraza.NewWAFConfig().WithDirectives(renderConfig(c)))
+	cfg := renderConfig(c)
+	if c.Ae != "" {
+		// every transaction writes an audit record (its parts are read while other transactions change theirs by ctl)
+		cfg = auditConfig(c, "Native", concAuditFile)
+	}
+	waf, err := coraza.NewWAF(coraza.NewWAFConfig().WithDirectives(cfg))
 	if err != nil {
 		return nil, "CONFIGERR"
 	}
@@ -67,6 +75,8 @@ func execConc(a []string) string {
 		}
 		cases = append(cases, c)
 	}
+	concAuditFile = filepath.Join(os.TempDir(), fmt.Sprintf("conc-%d-%d.log", os.Getpid(), atomic.AddInt64(&concSeq, 1)))
+	defer os.Remove(concAuditFile)
 	expected := make([]string, len(cases))
 	for i, c := range cases {
 		w, e := buildConcWAF(c)
@@ -158,6 +168,17 @@ func init() {
 					eRule{ID: 9, Ph: 1, Mk: "-", Rt: "-", Sa: "-", Sev: -1, Tags: []string{}, Log: true, Audit: true,
 						Links: []eLink{{Tg: []eTarget{{V: "ARGS_GET", K: gen.Field("ip"), X: []string{}}}, Op: &eOp{N: "pm", A: gen.Field("10.1 168.1 2.3.4 16.5")}, Tfs: []string{}, NA: []eNAct{}}}})
 			}
+			audited := i%4 == 1
+			if audited {
+				// audit log On; some requests change their own audit parts / engine at run time (relative and absolute forms)
+				base.Ae, base.Rs, base.Parts = "On", "-", gen.Field(c.r.Pick("ABCFHZ", "ABCFHKZ", "ABHZ"))
+				base.Rules = append([]eRule{{ID: 12, Ph: 1, Mk: "-", Rt: "-", Sa: "-", Sev: -1, Tags: []string{}, Log: true, Audit: true,
+					Links: []eLink{{Tg: []eTarget{{V: "ARGS_GET", K: gen.Field("trig2"), X: []string{}}}, Op: &eOp{N: "streq", A: gen.Field("1")}, Tfs: []string{},
+						NA: []eNAct{{N: "ctlAuditLogParts", K: gen.Field(c.r.Pick("-H", "-H", "+E", "-B", "-BF", "ABZ", "+K"))}}}}}}, base.Rules...)
+				for ri := range base.Rules {
+					base.Rules[ri].Audit = true
+				}
+			}
 			args := []string{strconv.Itoa(4 + c.r.Intn(12)), strconv.Itoa(20 + c.r.Intn(60))}
 			for k := 0; k < 3; k++ {
 				v := *base
@@ -168,6 +189,9 @@ func init() {
 					if k != 1 {
 						v.Get = append(v.Get, [2]string{gen.Field("trig"), gen.Field("1")})
 					}
+				}
+				if audited && k != 2 {
+					v.Get = append(v.Get, [2]string{gen.Field("trig2"), gen.Field("1")})
 				}
 				if sharedOp {
 					v.Get = append(v.Get, [2]string{gen.Field("ip"), gen.Field([]string{"192.168.1.7", "1.2.3.4", "172.16.5.5", "10.1.2.3", "9.9.9.9"}[(k+c.r.Intn(2))%5])})
